@@ -12,7 +12,7 @@ import traceback
 from . import build, coqrun, findings
 from .coqlit import Err, canon, to_val, uncanon
 
-VERIF = '/verif'
+VERIF = os.environ.get('VERIF_ROOT', '/verif')
 
 
 def _hash(payload):
@@ -254,7 +254,7 @@ def _run(mod, prop_id, tier, seed, replay, work, t0):
         'coverage': {
             'obligations': obligations,
             'discharged': discharged,
-            'checker_cmd': f'make -C /verif/coq Properties/{prop_id}.vo Run/{prop_id}_run.vo (coqc 8.16.1, full .vo) '
+            'checker_cmd': f'make -C {VERIF}/coq Properties/{prop_id}.vo Run/{prop_id}_run.vo (coqc 8.16.1, full .vo) '
                            f'+ Print Assumptions on every theorem of Properties/{prop_id}.v '
                            f'+ coqc on generated cases_*.v (Eval vm_compute in mismatches run cases)',
             'trusted_base': getattr(mod, 'TRUSTED', []) + [
